@@ -145,6 +145,15 @@ def n_sig_cases():
 class C04(CodeMonitor):
     prop = "C04"
 
+    def replay(self, case, stats):
+        root = spaces.build_code(case)
+        code = root
+        for i in case.get("cpath", []):
+            code = code.co_consts[i]
+        if case.get("renamed") is not None:
+            code = ref.code_replace(code, co_name=case["renamed"])
+        self.check_code(case, code, stats)
+
     def __init__(self, tier):
         CodeMonitor.__init__(self, tier)
         want = ("Pa", "Pc", "R") if tier == "quick" else None
@@ -224,6 +233,12 @@ class C04(CodeMonitor):
             return
         stats.reach["kind:%s" % kind] += 1
         stats.outcomes["sig-ok"] += 1
+        # the same function under other names: nothing in the calling convention, the
+        # docstring or the kind depends on co_name
+        if case.get("s") == "SIG" and not case.get("renamed"):
+            for nm in ("<lambda>", "<listcomp>", "<module>", ""):
+                if nm != code.co_name:
+                    self.check_code(dict(case, renamed=nm), ref.code_replace(code, co_name=nm), stats)
 
 
 def binding_experiment(code, want):
@@ -646,7 +661,8 @@ class C11(Monitor):
         base = base_code(case["base"])
         nv = len(base.co_varnames)
         only = case.get("triple")
-        masks = [0] + [1 << i for i in range(32)]
+        # no flag change, each single flag bit, and both function flags cleared at once
+        masks = [0] + [1 << i for i in range(32)] + [0x3]
         for a, p, k in [tuple(only)] if only is not None else count_triples(min(nv, 4)):
             for x in [case["xor"]] if only is not None else masks:
                 kw = {"co_argcount": a, "co_kwonlyargcount": k, "co_flags": base.co_flags ^ x}
